@@ -375,3 +375,86 @@ From Alp Require Import Base.Str Base.Types.
 Import ListNotations.
 Open Scope Z_scope.
 """
+
+
+# ---- small statement-level translators ---------------------------------------------------------------------------
+def bool_function(tree, qual, env, coqname, order, ignore_calls=("log.warning", "log.info", "log.debug", "logging.getLogger")):
+    """def f(...): (if test: [ignored calls] return e)* ; return e    ->  nested if/else returning bool"""
+    fn = find_func(tree, qual)
+    ex = Expr(dict(env))
+
+    def ignorable(s):
+        if isinstance(s, ast.Expr) and isinstance(s.value, ast.Call) and ast.unparse(s.value.func) in ignore_calls:
+            return True
+        if isinstance(s, ast.Assign) and isinstance(s.value, ast.Call) and ast.unparse(s.value.func) in ignore_calls:
+            return True
+        return False
+
+    def block(stmts):
+        stmts = [s for s in strip_doc(stmts) if not ignorable(s)]
+        if not stmts:
+            bail(fn, "block falls through without return")
+        s = stmts[0]
+        if isinstance(s, ast.Return):
+            if s.value is None:
+                bail(s, "bare return")
+            return ex.truthy(s.value)
+        if isinstance(s, ast.If):
+            then = block(s.body)
+            rest = block(list(s.orelse) + stmts[1:]) if s.orelse else block(stmts[1:])
+            return f"(if {ex.truthy(s.test)} then {then} else {rest})"
+        bail(s, "statement outside the fragment")
+
+    body = block(fn.body)
+    return f"Definition {coqname} {ex.args(order)} : bool := {body}."
+
+
+def event_program(tree, qual, coqname, inputs, events, ignore=("echo",), exits=("ctx.exit",), oracle=None):
+    """A function whose only effects are calls: translate to (inputs) -> list of events.
+    `events`: callee text -> function(call node) -> event constructor text (or None to ignore);
+    `oracle`: callee text -> (input name, event emitted when it is consulted)."""
+    fn = find_func(tree, qual)
+    oracle = oracle or {}
+
+    def cond(node):
+        if isinstance(node, ast.Name) and node.id in inputs:
+            return node.id, []
+        if isinstance(node, ast.UnaryOp) and isinstance(node.op, ast.Not):
+            c, pre = cond(node.operand)
+            return f"(negb {c})", pre
+        if isinstance(node, ast.Call) and ast.unparse(node.func) in oracle:
+            name, evt = oracle[ast.unparse(node.func)]
+            return name, [evt]
+        bail(node, "condition outside the fragment")
+
+    def block(stmts, k):
+        """k = Gallina text of the continuation (list of events)"""
+        stmts = strip_doc(stmts)
+        if not stmts:
+            return k
+        s, rest = stmts[0], stmts[1:]
+        if isinstance(s, ast.Expr) and isinstance(s.value, ast.Call):
+            callee = ast.unparse(s.value.func)
+            if callee in ignore:
+                return block(rest, k)
+            if callee in exits:
+                return "[]"
+            if callee in events:
+                e = events[callee](s.value)
+                tail = block(rest, k)
+                return tail if e is None else f"({e} :: {tail})"
+            bail(s, f"call to {callee} outside the fragment")
+        if isinstance(s, ast.If):
+            c, pre = cond(s.test)
+            after = block(rest, k)
+            then = block(s.body, after)
+            els = block(s.orelse, after) if s.orelse else after
+            body = f"(if {c} then {then} else {els})"
+            for e in reversed(pre):
+                body = f"({e} :: {body})"
+            return body
+        bail(s, "statement outside the fragment")
+
+    body = block(fn.body, "[]")
+    args = " ".join(f"({i} : bool)" for i in inputs)
+    return f"Definition {coqname} {args} : list cevent := {body}."
